@@ -504,4 +504,127 @@ def runCache {M K V : Type} (S : SyncMap M K V) (compute : K → V) :
     let p := S.loadOrStore m k (compute k)
     (k, some p.1) :: runCache S compute p.2 r
 
+/-! ## 6. The single-flight group (`memoize.Group.Do`) as used by `oidc.Client`
+
+One key of one group.  A *flight* is one execution of the fetch function under a context that is
+DETACHED from every caller (`context.WithCancel(context.WithoutCancel(ctx))`) together with the
+set of callers waiting for it; a caller whose own context ends leaves the flight and gets its
+`ctx.Err()`; the flight is cancelled exactly when the last waiter has left; the provider's answer
+is delivered to every waiter and, if it is a success, cached.  (Modelled from
+`github.com/shogo82148/memoize@v0.1.0/memoize.go`; the library itself is trusted.)
+
+That the fetch function really runs under the flight's context — and not under a captured caller
+context — is a *fact* about goat extracted on every run (`CtxFact`, `Gen.flightCtxFacts`). -/
+namespace Flight
+
+abbrev Caller := Nat
+
+inductive Ev where
+  /-- caller `c` calls `Group.Do` with a live context -/
+  | call (c : Caller)
+  /-- the context of caller `c` is cancelled / expires -/
+  | cancel (c : Caller)
+  /-- the provider answers the request of the flight in progress -/
+  | answer (ok : Bool) (v : Nat)
+  deriving DecidableEq, Repr, Inhabited
+
+inductive Outcome where
+  | value (v : Nat)
+  /-- the provider's error -/
+  | provErr
+  /-- the caller's own `ctx.Err()` -/
+  | ctxErr
+  deriving DecidableEq, Repr, Inhabited
+
+structure St where
+  cache : Option Nat
+  /-- waiters of the flight in progress -/
+  flight : Option (List Caller)
+  /-- callers whose context has ended -/
+  dead : List Caller
+  out : Caller → Option Outcome
+  /-- provider requests started -/
+  requests : Nat
+  /-- flights cancelled because every waiter left -/
+  cancelled : Nat
+
+def init : St := ⟨none, none, [], fun _ => none, 0, 0⟩
+
+/-- a caller's outcome is set once -/
+def setOnce (out : Caller → Option Outcome) (c : Caller) (o : Outcome) : Caller → Option Outcome :=
+  fun c' => if c' = c then (match out c with | some x => some x | none => some o) else out c'
+
+def isWaiting (s : St) (c : Caller) : Bool :=
+  match s.flight with
+  | some ws => ws.contains c
+  | none => false
+
+/-- a `call` event of a caller that already called, or whose context has already ended, is not
+    part of the modelled behaviour and is ignored -/
+def known (s : St) (c : Caller) : Bool := (s.out c).isSome || s.dead.contains c || isWaiting s c
+
+def step (s : St) : Ev → St
+  | .call c =>
+    if known s c then s else
+    match s.cache with
+    | some v => { s with out := setOnce s.out c (.value v) }
+    | none =>
+      match s.flight with
+      | some ws => { s with flight := some (c :: ws) }
+      | none => { s with flight := some [c], requests := s.requests + 1 }
+  | .cancel c =>
+    if s.dead.contains c then s else
+    match s.flight with
+    | some ws =>
+      if ws.contains c then
+        if (ws.erase c).isEmpty then
+          { s with dead := c :: s.dead, out := setOnce s.out c .ctxErr, flight := none,
+                   cancelled := s.cancelled + 1 }
+        else
+          { s with dead := c :: s.dead, out := setOnce s.out c .ctxErr, flight := some (ws.erase c) }
+      else { s with dead := c :: s.dead }
+    | none => { s with dead := c :: s.dead }
+  | .answer ok v =>
+    match s.flight with
+    | none => s
+    | some ws =>
+      { s with flight := none, cache := if ok then some v else s.cache,
+               out := fun c => if ws.contains c then
+                          (match s.out c with
+                           | some x => some x
+                           | none => some (if ok then .value v else .provErr))
+                        else s.out c }
+
+def run (s : St) (evs : List Ev) : St := evs.foldl step s
+
+def Ev.isAnswer : Ev → Bool
+  | .answer _ _ => true
+  | _ => false
+
+end Flight
+
+/-- kinds of context facts about a fetch function passed to `memoize.Group.Do` -/
+inductive CtxFactKind where
+  /-- a `context.Context` variable declared outside the function literal is used inside it -/
+  | captured
+  /-- the fetch function never uses its own context parameter -/
+  | paramUnused
+  /-- the fetch function is not a literal / repository function the extractor can inspect -/
+  | unknownFn
+  deriving DecidableEq, Repr, Inhabited
+
+structure CtxFact where
+  pos   : String
+  group : String
+  kind  : CtxFactKind
+  ident : String
+  deriving DecidableEq, Repr, Inhabited
+
+/-- one call site `<group>.Do(ctx, key, fn)` of a `memoize.Group` -/
+structure FlightCall where
+  pos   : String
+  group : String
+  fn    : String
+  deriving DecidableEq, Repr, Inhabited
+
 end Conc
